@@ -177,6 +177,13 @@ type Reader struct {
 	Steps []ReadStep
 	Rest  int
 
+	// FailAt > 0: the stream fails with FailErr exactly when FailAt bytes have
+	// been delivered (together with the last of them if FailWith is set, on the
+	// following call otherwise), whatever sizes the caller reads with.
+	FailAt   int
+	FailErr  string
+	FailWith bool
+
 	pos, step int
 	Calls     int
 	ZeroReads int
@@ -202,7 +209,19 @@ func (r *Reader) Read(p []byte) (int, error) {
 		errName = st.Err
 		planned = true
 	}
+	if r.FailAt > 0 && r.pos >= r.FailAt {
+		r.failed = ErrByName(r.FailErr)
+		r.ErrFired = r.FailErr
+		if W != nil {
+			W.Stat("fault.read." + r.FailErr)
+			W.Event("read 0 err=%v (at byte %d)", r.failed, r.pos)
+		}
+		return 0, r.failed
+	}
 	remaining := len(r.Data) - r.pos
+	if r.FailAt > 0 && remaining > r.FailAt-r.pos {
+		remaining = r.FailAt - r.pos
+	}
 	if remaining == 0 && errName == "" {
 		if W != nil {
 			W.Event("read eof")
@@ -221,6 +240,9 @@ func (r *Reader) Read(p []byte) (int, error) {
 	n := copy(p, r.Data[r.pos:r.pos+want])
 	r.pos += n
 	var err error
+	if r.FailAt > 0 && r.pos >= r.FailAt && r.FailWith && errName == "" {
+		errName = r.FailErr
+	}
 	if errName != "" {
 		if errName == "EOF" {
 			// data together with EOF is only legal when it is the end
@@ -268,6 +290,7 @@ type Disk struct {
 	OpenErr   map[string]string     // name → error on Open/Create
 	ReadPlan  map[string][]ReadStep // name → chunking/faults for reads
 	ReadRest  map[string]int
+	ReadFail  map[string][3]string // name → {byte offset, error, "with" or ""}
 	WritePlan map[string][]WriteFault
 	// CrashAfter kills the process once this many bytes in total have been
 	// written to the named file in this boot (the bytes up to the limit reach
@@ -284,6 +307,7 @@ func NewDisk() *Disk {
 		OpenErr:    map[string]string{},
 		ReadPlan:   map[string][]ReadStep{},
 		ReadRest:   map[string]int{},
+		ReadFail:   map[string][3]string{},
 		WritePlan:  map[string][]WriteFault{},
 		CrashAfter: map[string]int{},
 		Writes:     map[string][]int{},
@@ -450,7 +474,12 @@ func Open(name string) (*File, error) {
 	W.Event("open %s size=%d", name, len(node.Data))
 	data := make([]byte, len(node.Data))
 	copy(data, node.Data)
-	return &File{name: name, node: node, rd: &Reader{Data: data, Steps: d.ReadPlan[name], Rest: d.ReadRest[name]}}, nil
+	rd := &Reader{Data: data, Steps: d.ReadPlan[name], Rest: d.ReadRest[name]}
+	if f, ok := d.ReadFail[name]; ok {
+		fmt.Sscan(f[0], &rd.FailAt)
+		rd.FailErr, rd.FailWith = f[1], f[2] == "with"
+	}
+	return &File{name: name, node: node, rd: rd}, nil
 }
 
 // Create replaces os.Create (truncates at once, like the real call).
